@@ -21,7 +21,7 @@ func init() {
 		Title: "Payment gauges stream linearly and never release more than the pro-rata deposit",
 		Cases: func(t string) int { return tierN(t, 140, 2600) },
 		Run:   runC12,
-		Rule: "case = one history creating 1-6 gauges (plan purchases and pay-once posts; amounts 1..1e15 via size, duration and price feed; durations 1 day..3 years; optionally two purchases with identical parameters in one block) followed by 20-45 blocks whose time steps are drawn from {0, 1us, 0.5s, 1s, 6s, 1h, 1d, 10d, 45d, 200d} with reward interval 2-5; " +
+		Rule: "case = one history creating 1-6 gauges (plan purchases and pay-once posts; amounts 1..1e15 via size, duration and price feed; durations 1 day..3 years; optionally 2-4 purchases with identical parameters in one block) followed by 20-45 blocks whose time steps are drawn from {0, 1us, 0.5s, 1s, 6s, 1h, 1d, 10d, 45d, 200d} with reward interval 2-5; " +
 			"oracle per gauge per BeginBlock from balance snapshots (cross-checked with the transfer event log): nothing moves in non-reward blocks or outside [start,end]; inside, cumulative release == floor(deposited*(t-start)us/(end-start)us) +-1 per denom, non-decreasing, <= deposited (deposited = everything that entered the escrow account); " +
 			"non-trivial signature = (amount magnitude, duration class, gauge kind, number of reward blocks seen inside the interval (capped), concurrent gauges)",
 		Assumptions: []string{
@@ -93,10 +93,14 @@ func runC12(rc *RunCtx) {
 		tx(who, &storagetypes.MsgBuyStorage{Creator: c.Accs[who].Bech, ForAddress: c.Accs[who].Bech, DurationDays: days, Bytes: bytes, PaymentDenom: "ujkl"})
 		if twin {
 			twin = false
-			other := (who + 1) % 4
-			rc.Logf("twin purchase with identical parameters in the same block by acc%d", other)
-			tx(other, &storagetypes.MsgBuyStorage{Creator: c.Accs[other].Bech, ForAddress: c.Accs[other].Bech, DurationDays: days, Bytes: bytes, PaymentDenom: "ujkl"})
-			rc.Count("twin_purchases", 1)
+			// 1-3 further purchases with identical parameters in the same block (2-4 equal gauges)
+			extra := 1 + rc.Intn(3)
+			for e := 1; e <= extra; e++ {
+				other := (who + e) % 4
+				rc.Logf("purchase with identical parameters in the same block by acc%d", other)
+				tx(other, &storagetypes.MsgBuyStorage{Creator: c.Accs[other].Bech, ForAddress: c.Accs[other].Bech, DurationDays: days, Bytes: bytes, PaymentDenom: "ujkl"})
+			}
+			rc.Count(fmt.Sprintf("equal_purchases_in_one_block_%d", extra+1), 1)
 		}
 	}
 	for created < nG {
